@@ -30,6 +30,38 @@ where
     | [] => []
     | (_, v) :: r => allLocs v ++ locsFields r
 
+theorem locsList_replicate_nil (n : Nat) (v : Val) (h : allLocs v = []) : allLocs.locsList (List.replicate n v) = [] := by
+  induction n with
+  | zero => simp [List.replicate, allLocs.locsList]
+  | succ m ihm => simp [List.replicate, allLocs.locsList, h, ihm]
+
+/-- zero values contain no reference cells -/
+theorem allLocs_zeroVal (env : TEnv) : ∀ (k : Nat) (t : Ty), allLocs (zeroVal env k t) = [] := by
+  intro k
+  induction k with
+  | zero =>
+    intro t
+    unfold zeroVal
+    split <;> simp [allLocs, allLocs.locsFields]
+  | succ k ih =>
+    intro t
+    unfold zeroVal
+    split
+    · simp [allLocs]
+    · rename_i n e _
+      simp only [allLocs]
+      exact locsList_replicate_nil n _ (ih e)
+    · rename_i fs _
+      simp only [allLocs]
+      generalize fs.toList = l
+      induction l with
+      | nil => unfold zeroVal.zeroFields; simp [allLocs.locsFields]
+      | cons a l ihl =>
+        obtain ⟨f, ty⟩ := a
+        unfold zeroVal.zeroFields
+        simp [allLocs.locsFields, ih ty, ihl]
+    · simp [allLocs]
+
 /-- `ls` are locations allocated in the counter interval `[n, n')`, each once -/
 def AllocL (n n' : Nat) (ls : List Loc) : Prop :=
   n ≤ n' ∧ (∀ l, l ∈ ls → ∃ k, l = .fresh k ∧ n ≤ k ∧ k < n') ∧ ls.Nodup
@@ -324,6 +356,15 @@ theorem fConv_step (p : Program) (fuel : Nat) (ihc : FConv p fuel) (ihm : FCall 
     rw [hne]
     simp only [Bool.false_eq_true, if_false]
     exact allocL_perm_cons this
+  | @srcPtr _ _ se inner hs ht hin =>
+    unfold evalConv at hev
+    rcases wt_ptr_inv hwt hs with rfl | ⟨l, x, rfl, hx⟩
+    · have := (E_pure_ok _ _ _).1 hev
+      cases this
+      rcases hold with h | ⟨k, h⟩
+      · subst h; exact allocL_nil n
+      · subst h; rw [allLocs_zeroVal]; exact allocL_nil n
+    · exact ihc _ inner se t x _ n v' n' hin hx (.inr ⟨64, rfl⟩) hev
   | @slice _ _ se te elem hs ht hel =>
     unfold evalConv at hev
     rcases wt_slice_inv hwt hs with rfl | ⟨l, vs, rfl, hvs⟩
